@@ -619,6 +619,7 @@ def render_batch(fmt: str, cases: Sequence[Dict[str, Any]], processtypes: bool =
     from pydoctor import epydoc2stan
     from pydoctor.stanutils import flatten
 
+    afterprop = any(c.get("how") == "afterprop" for c in cases)
     moved = [c for c in cases if c.get("how") == "moved"]
     # "moved" documents are written in a module that declares their docformat; the system's default is another one
     system = make_system(fmt, processtypes)
@@ -631,6 +632,9 @@ def render_batch(fmt: str, cases: Sequence[Dict[str, Any]], processtypes: bool =
                                                                                for c in moved]), "_impl", parent_name="pk")
         if len(moved) != len(cases):
             raise MachineryError("moved documents are rendered in batches of their own")
+    if afterprop:
+        # a module analysed before: its property docstring is the first docstring this system parses
+        builder.addModuleString('class First:\n    @property\n    def value(self):\n        """int: wq902x wq903x."""\n        return 1\n', "a0")
     in_mod = [c for c in cases if c["host"] != "module" and c.get("how") != "moved"]
     builder.addModuleString(make_source([(f"o{c['id']}", c["host"], c["docstring"], c.get("inlines", {}), c.get("how", "direct"))
                                          for c in in_mod]), "m")
@@ -926,7 +930,8 @@ def tla_set(xs: Sequence[str]) -> str:
 
 
 def tlc_documents(ctx: Ctx, cfg: str, timeout: int = 1500) -> Tuple[List[Dict[str, Any]], Dict[str, Any], Any]:
-    r = ctx.tlc("DocModel", cfg, workers=(4 if ctx.quick else "auto"), check=True, timeout=timeout)
+    r = ctx.tlc("DocModel", cfg, workers=(4 if ctx.quick else 8), check=True, timeout=timeout,
+                java_opts=["-Xmx2g" if ctx.quick else "-Xmx6g"])       # (several run at a time: modest heaps)
     if r.violated:
         raise MachineryError(f"DocModel: the generator's own sanity invariant failed: {r.violated}")
     templates = None
@@ -992,7 +997,8 @@ def work(args: Tuple[Any, ...]) -> Dict[str, Any]:
 
 
 def shape_of(rec: Dict[str, Any]) -> str:
-    return rec["host"] + "/" + rec.get("how", "direct") + "/" + ",".join(
+    first = rec["doc"][0]
+    return rec["host"] + "/" + rec.get("how", "direct") + "/" + str(first.get("style", "")) + "/" + ",".join(
         n["t"] + ":" + str(n.get("kind", n.get("lt", ""))) + ":" + str(n.get("form", "")) + ":" + str(n.get("lv", 0)) for n in rec["doc"])
 
 
@@ -1025,9 +1031,10 @@ def run_documents_multi(ctx: Ctx, jobs: Sequence[Tuple[List[Dict[str, Any]], Dic
     tasks: List[Tuple[Any, ...]] = []
     owner: List[int] = []
     for j, (recs, templates, formats, opts) in enumerate(jobs):
-        moved = [x for x in recs if x.get("how") == "moved"]             # rendered in batches of their own
-        rest = [x for x in recs if x.get("how") != "moved"]
-        for part in (rest, moved):
+        moved = [x for x in recs if x.get("how") == "moved"]             # rendered in batches (systems) of their own
+        after = [x for x in recs if x.get("how") == "afterprop"]
+        rest = [x for x in recs if x.get("how") not in ("moved", "afterprop")]
+        for part in (rest, moved, after):
             for fmt in formats:
                 for ch in chunks(part, batch):
                     tasks.append((fmt, list(ch), templates, opts))
@@ -1047,8 +1054,9 @@ def run_documents(ctx: Ctx, recs: List[Dict[str, Any]], templates: Dict[str, Any
     from pydoctor import epydoc2stan, model, stanutils                                   # noqa: F401
     from pydoctor.epydoc.markup import epytext, restructuredtext, google, numpy, plaintext  # noqa: F401
     moved = [x for x in recs if x.get("how") == "moved"]
-    rest = [x for x in recs if x.get("how") != "moved"]
-    tasks = [(fmt, list(ch), templates, opts or {}) for part in (rest, moved) for fmt in formats for ch in chunks(part, batch)]
+    after = [x for x in recs if x.get("how") == "afterprop"]
+    rest = [x for x in recs if x.get("how") not in ("moved", "afterprop")]
+    tasks = [(fmt, list(ch), templates, opts or {}) for part in (rest, moved, after) for fmt in formats for ch in chunks(part, batch)]
     nproc = max(1, min(os.cpu_count() or 4, 16, len(tasks)))
     with mp.get_context("fork").Pool(nproc) as pool:
         return pool.map(work, tasks, chunksize=1)
@@ -1214,7 +1222,7 @@ def plan(ctx: Ctx) -> List[Dict[str, Any]]:
             dict(name="structure=4", actions=4, depth=3, fields=1, kinds=["param", "note"], blocks=ALL_BLOCKS, free=False,
                  sample=400),
             dict(name="styles-free<=2", actions=2, depth=1, fields=2, kinds=["param", "returns", "note"], blocks=["para"], free=True,
-                 sample=800),
+                 sample=1000, hows=["direct", "afterprop"]),
             dict(name="history-fault<=3", actions=3, depth=1, fields=2, kinds=["param", "return", "note", "ivar"],
                  blocks=["para", "list", "doctest", "poison"], free=False, sample=900, hows=["assigned", "inherited", "direct"],
                  need="history-or-fault"),
@@ -1237,6 +1245,8 @@ def plan(ctx: Ctx) -> List[Dict[str, Any]]:
              sample=25000),
         dict(name="free-choice", actions=3, depth=3, fields=1, kinds=["param", "raises"], blocks=ALL_BLOCKS, free=True,
              sample=20000),
+        dict(name="styles-free<=2", actions=2, depth=1, fields=2, kinds=["param", "returns", "note"], blocks=["para"], free=True,
+             sample=None, hows=["direct", "afterprop"]),
         dict(name="structure=5", actions=5, depth=3, fields=1, kinds=["param", "note"], blocks=ALL_BLOCKS, free=False,
              sample=25000),
         dict(name="nesting<=6", actions=6, depth=3, fields=0, kinds=[], blocks=["para", "list", "lit", "doctest"], free=False,
@@ -1319,8 +1329,9 @@ def run(ctx: Ctx) -> int:
     with ThreadPoolExecutor(max_workers=4 if ctx.quick else 2) as ex:
         enumerated_cfgs = list(ex.map(enumerate_cfg, list(enumerate(plans))))
         # (the Epytext enumerations of the second half of the check)
-        ep_results = list(ex.map(lambda ec: ctx.tlc("Epytext", EP_CFG.format(**ec), workers=(6 if ctx.quick else "auto"), check=True,
-                                                    coverage=ctx.quick, timeout=3000), ep_cfgs))
+        ep_results = list(ex.map(lambda ec: ctx.tlc("Epytext", EP_CFG.format(**ec), workers=(6 if ctx.quick else 8), check=True,
+                                                    coverage=ctx.quick, timeout=3000,
+                                                    java_opts=["-Xmx2g" if ctx.quick else "-Xmx8g"]), ep_cfgs))
 
     per_cfg: List[Tuple[Dict[str, Any], List[Dict[str, Any]], Dict[str, Any], Any, int]] = []
     for pl, (recs, templates, r, enumerated) in zip(plans, enumerated_cfgs):
